@@ -97,25 +97,25 @@ CONTAINERS = {
 
 CONFIGS = {
     # old container cleaned up on A while the new one registers on B
-    'P1': {'nodes': [('A', 'hosta', [('create', 'g1'), ('delete', 'g1')]),
-                     ('B', 'hostb', [('create', 'g2')])]},
+    'P1': {'nodes': [('A', 'node1', [('create', 'g1'), ('delete', 'g1')]),
+                     ('B', 'node10', [('create', 'g2')])]},
     # two generations on the same host (A), a third party on B
-    'P2': {'nodes': [('A', 'hosta', [('create', 'g1'), ('create', 'g3'),
+    'P2': {'nodes': [('A', 'node1', [('create', 'g1'), ('create', 'g3'),
                                      ('delete', 'g1')]),
-                     ('B', 'hostb', [('create', 'g2')])]},
+                     ('B', 'node10', [('create', 'g2')])]},
     # both sides register and clean up
-    'P3': {'nodes': [('A', 'hosta', [('create', 'g1'), ('delete', 'g1')]),
-                     ('B', 'hostb', [('create', 'g2'), ('delete', 'g2')])]},
+    'P3': {'nodes': [('A', 'node1', [('create', 'g1'), ('delete', 'g1')]),
+                     ('B', 'node10', [('create', 'g2'), ('delete', 'g2')])]},
     # three nodes
-    'P4': {'nodes': [('A', 'hosta', [('create', 'g1'), ('delete', 'g1')]),
-                     ('B', 'hostb', [('create', 'g2'), ('delete', 'g2')]),
-                     ('C', 'hostc', [('create', 'g4')])]},
+    'P4': {'nodes': [('A', 'node1', [('create', 'g1'), ('delete', 'g1')]),
+                     ('B', 'node10', [('create', 'g2'), ('delete', 'g2')]),
+                     ('C', 'node100', [('create', 'g4')])]},
     # two generations on A while B registers and cleans up
-    'P6': {'nodes': [('A', 'hosta', [('create', 'g1'), ('create', 'g3'),
+    'P6': {'nodes': [('A', 'node1', [('create', 'g1'), ('create', 'g3'),
                                      ('delete', 'g1')]),
-                     ('B', 'hostb', [('create', 'g2'), ('delete', 'g2')])]},
+                     ('B', 'node10', [('create', 'g2'), ('delete', 'g2')])]},
     # same-host generations only (restart / re-issue order)
-    'P5': {'nodes': [('A', 'hosta', [('create', 'g1'), ('create', 'g3'),
+    'P5': {'nodes': [('A', 'node1', [('create', 'g1'), ('create', 'g3'),
                                      ('delete', 'g1')])]},
 }
 
